@@ -11,6 +11,13 @@ package c14
 //	U   an exchange within both limits is identical - status, complete header multimap except Date,
 //	    framing, body - to the same exchange through the same chain WITHOUT size_limit
 //
+// The statement counts the bytes the client receives, so S1, S2 and U hold whichever way the handler behind
+// the plugin hands its body to the ResponseWriter (w.Write, io.WriteString, io.Copy, fmt.Fprint - stub.go).
+// Two allowances for io.Copy, whose piece sizes are the copier's business: S2 is not demanded when the FIRST
+// piece is copied (what "the first write" is then depends on who copies), and U does not compare
+// Content-Length vs chunked framing of a program that copies (net/http's own ReadFrom flushes the header
+// after the first 512 bytes; any wrapper in front of it - this plugin, logging - hides that method).
+//
 // Nothing else is asserted: a too-large chunked upload may end in any status, a response that overflows
 // after bytes were sent may end in any way as long as S1 holds, and the 413 answer to a rejected request
 // is the plugin's own message, not a backend body (S1 does not apply to it).
@@ -62,6 +69,20 @@ func stubRegion(p *Program) string {
 	return ""
 }
 
+// directlyOnServerWriter: no plugin that wraps the ResponseWriter stands on either side of size_limit
+// (headers does not wrap, logging does), so size_limit wraps net/http's own writer - with all its optional
+// interfaces - and the handler sees size_limit's writer itself.
+func directlyOnServerWriter(ch Chain) bool {
+	for _, side := range [][]string{ch.Before, ch.After} {
+		for _, p := range side {
+			if p != "headers" {
+				return false
+			}
+		}
+	}
+	return true
+}
+
 func (c *StubCase) describe() string {
 	return fmt.Sprintf("chain before=%v [size_limit max_request_body=%d max_response_body=%d (%s; 0 = omitted)] after=%v\nrequest %s %s framing=%s body=%d parts=%v\nhandler: %s",
 		c.Chain.Before, c.Chain.L, c.Chain.M, c.Chain.Style, c.Chain.After, c.Req.Method, c.Req.Target, c.Req.Framing, len(c.Req.Body), c.Req.Parts, c.Prog.String())
@@ -103,6 +124,22 @@ func (c *StubCase) classify() (labels []string, nontrivial bool) {
 	if c.Prog.Writes() >= 2 {
 		labels = append(labels, "writes>=2")
 		nontrivial = true
+	}
+	ways := c.Prog.Ways()
+	for _, w := range ways {
+		if w == ViaWrite {
+			w = "write"
+		}
+		labels = append(labels, "emit-"+w)
+	}
+	if len(ways) >= 2 {
+		labels = append(labels, "emit-mixed")
+	}
+	if len(ways) > 1 || (len(ways) == 1 && ways[0] != ViaWrite) {
+		labels = append(labels, "emit-other-than-Write")
+	}
+	if directlyOnServerWriter(c.Chain) {
+		labels = append(labels, "plugin-on-server-writer")
 	}
 	_, fb := c.Prog.FirstWrite()
 	hasFlush := false
@@ -208,7 +245,7 @@ func JudgeStubRef(c *StubCase, with *StubLab, reference func() (*lab.RawResponse
 	if total > M {
 		v.Labels = append(v.Labels, "response-too-large")
 		first, flushed := c.Prog.FirstWrite()
-		if int64(first) > M && !flushed {
+		if int64(first) > M && !flushed && c.Prog.FirstVia() != ViaCopy {
 			v.Labels = append(v.Labels, "413-required")
 			if err != nil {
 				v.Viol = fmt.Sprintf("S2: the first Write (%d bytes) alone exceeds max_response_body %d and nothing was written or flushed before it, but the client got no response (%v), not 413", first, M, err)
@@ -225,7 +262,7 @@ func JudgeStubRef(c *StubCase, with *StubLab, reference func() (*lab.RawResponse
 		v.Viol = fmt.Sprintf("harness: reference exchange without the plugin failed: %v", rerr)
 		return v
 	}
-	if d := DiffResponse(ref, got, false); d != "" {
+	if d := DiffResponse(ref, got, c.Prog.UsesCopy()); d != "" {
 		if key := stubRegion(&c.Prog); key != "" && lab.Open(key) && got.Status == 200 && ref.Status != 200 {
 			v.Excluded = key
 			return v
